@@ -33,6 +33,16 @@ def run(ck, tier, seed):
     for i, tag in enumerate([0, 0x6B000000, 0x6B730000, 0x6B737A00][:nl]):
         sill[12 + 8 * i:16 + 8 * i] = struct.pack(">I", tag)
     t["Sill"] = bytes(sill)
+    # ... and the ids of its first features rewritten to short tags that begin with a digit or a punctuation mark
+    ft = bytearray(t["Feat"])
+    v2 = struct.unpack(">H", ft[0:2])[0] >= 2
+    nf = struct.unpack(">H", ft[4:6])[0]
+    for i, tag in enumerate([0x33640000, 0x39707400, 0x2B000000][:nf]):          # "3d", "9pt", "+"
+        at = 12 + (16 if v2 else 12) * i
+        if v2:
+            ft[at:at + 4] = struct.pack(">I", tag)
+    if v2:
+        t["Feat"] = bytes(ft)
     staged = os.path.join(tmp, "padauk_shorttags.ttf")
     open(staged, "wb").write(sfnt.build_sfnt(t))
     exe = vlib.build_harness("san")
